@@ -864,22 +864,22 @@ def build_reduced(ck):
             rule = Obj(P.cls('HomothetyRule'))
             out = S.call(S.I.getattr(rule, 'apply'), [B.PyList(list(ops))])
             if not out.normal:
-                S.oblige('exc', False, tag=f'no-exception-{out.value.name}')
+                S.oblige('bounded', False, tag=f'no-exception-{out.value.name}')
                 return
             res = B.as_seq(S.I, out.value).py_items()
             hs = [o for o in res if isinstance(o, Obj) and o.cls.name == 'HomothetyOperator']
-            S.oblige('post', len(hs) <= 1, tag='at-most-one-scalar-operator-left')
+            S.oblige('bounded', len(hs) <= 1, tag='at-most-one-scalar-operator-left')
             for h in hs:
                 v = h.fields['value']
                 ok = isinstance(v, ST.LeafV)
-                S.oblige('post', ok, tag='merged-value-is-an-array')
+                S.oblige('bounded', ok, tag='merged-value-is-an-array')
                 if not ok:
                     continue
                 v = SA.as_sleaf(v)
-                S.oblige('post', narrow(v), tag='merged-value-no-wider-than-any-leaf (mv keeps every leaf dtype: requires re-established)')
-                S.oblige('post', ST.f_ndim(v.term) == 0, tag='merged-value-is-a-scalar')
+                S.oblige('bounded', narrow(v), tag='merged-value-no-wider-than-any-leaf (mv keeps every leaf dtype: requires re-established)')
+                S.oblige('bounded', ST.f_ndim(v.term) == 0, tag='merged-value-is-a-scalar')
                 hs_ = S.call(S.I.getattr(h, 'in_structure'), [])
-                S.oblige('post', hs_.normal and (hs_.value is s or bool(struct_eq(hs_.value, s) is True)),
+                S.oblige('bounded', hs_.normal and (hs_.value is s or bool(struct_eq(hs_.value, s) is True)),
                          tag='scalar-operator-sits-on-the-structure-of-its-end')
         return sc
     for pattern in ('HH', 'HO', 'OH', 'HOH', 'OHH', 'HHO', 'OHO', 'HHH'):
